@@ -18,16 +18,18 @@
 (*          "Partial"  a proper prefix of a valid response, exit 0         *)
 (*          "Empty"    nothing on stdout, exit 0                           *)
 (*          "Hang"     never finishes                                      *)
-(*   dur    "fast" | "slow": a slow plugin needs longer than the largest   *)
-(*          positive time limit of the universe before it does the above   *)
+(*   dur    "fast" | "slow": a slow plugin needs SlowMs before it does the *)
+(*          above; a fast one needs (much) less than any limit >= SlowMs   *)
 (*   limit  --plugin-time-limit in ms, 0 = no limit                        *)
 (*   items  the contents of the response (File / UPatch / NPatch records   *)
 (*          as in FileManager), warns its warnings, rerr its error string  *)
 (*          ("" = none).                                                   *)
 (*                                                                         *)
-(* Time is abstract: the plugin exceeds the limit iff limit > 0 and it is  *)
-(* slow or hangs; then the timer fires before the plugin finishes,         *)
-(* otherwise the plugin finishes before the timer could fire.              *)
+(* Time is abstract: the plugin exceeds the limit iff limit > 0 and it     *)
+(* hangs or is slow with limit < SlowMs; then the timer fires before the   *)
+(* plugin finishes, otherwise the plugin finishes before the timer could   *)
+(* fire.  A fast plugin under a limit < SlowMs could go either way in real *)
+(* time; such cases are not part of the universe (WellTimed).              *)
 (*                                                                         *)
 (* What the property allows:                                               *)
 (*   - the plugin decodes exactly the request the compiler built (Spawn);  *)
@@ -57,7 +59,9 @@ vars  == <<avars, pvars>>
 
 Behaviours == {"Ok", "ExitN", "Garbage", "Partial", "Empty", "Hang"}
 
-Beyond(c) == c.limit > 0 /\ (c.beh = "Hang" \/ c.dur = "slow")
+SlowMs == 2500
+Beyond(c) == c.limit > 0 /\ (c.beh = "Hang" \/ (c.dur = "slow" /\ c.limit < SlowMs))
+WellTimed(c) == (c.limit > 0 /\ c.limit < SlowMs) => (c.beh = "Hang" \/ c.dur = "slow")
 \* a case in which thriftgo would wait for ever is outside the property
 Terminating(c) == c.beh = "Hang" => c.limit > 0
 
